@@ -131,6 +131,13 @@ class LoopSpec:
             if isinstance(e0, bool) or not isinstance(e0, int) or cur is UNBOUND or not isinstance(cur, (int, SI)) or isinstance(cur, bool):
                 continue
             out.append(SI.lift(cur).e == e0 + (idx.e - lo.e))
+        # a flag: a local that enters the loop as the constant False and is assigned in the body (`cancelled = True; break`).  Candidate: it is still
+        # False at the head of every iteration (it is only ever set on the way out).  Whatever the flag is called.
+        for k in sorted(set(getattr(self, "assigned", ()) or ())):
+            e0 = entry.get(k, UNBOUND)
+            cur = loc.get(k, UNBOUND)
+            if e0 is False and cur is not UNBOUND and isinstance(cur, (bool, SB)):
+                out.append(z3.Not(sym._b(cur)))
         return out
 
     def cut(self, vc, label, it, getters):
